@@ -54,6 +54,9 @@ IDIOMS = {
     'I13': 'X.borrow_mut()  =>  X.as_mut_slice()   (BorrowMut<[u8]> for Vec<u8> / [u8; N] is the whole buffer as a slice)',
     'I14': 'T::from(E)  =>  T::from_<ty>(E)   (From-trait static dispatch made explicit; rustc re-checks that E has type <ty>)',
     'I15': 'M.entry(K).or_insert(V)  =>  idiom_entry_or_insert(&mut M, K, V)   (HashMap entry API: &mut to the value at K, V inserted first if absent)',
+    'I17': 'for (K, V) in &M {  =>  let es__ = idiom_map_entries(&M); for i__ in 0..es__.len() { let (K, V) = (&es__[i__].0, es__[i__].1);   (HashMap iteration = enumeration of the entries in an UNSPECIFIED order)',
+    'I18': '*M.keys().max().unwrap()  =>  idiom_max_key(&M)   (panics on an empty map: precondition)',
+    'I19': 'M.retain(|K, _| { *K >= A && *K <= B });  =>  idiom_retain_key_range(&mut M, A, B);',
     'A1': 'abstract-expression: `expr` => havoc::<T>() (unconstrained value)',
 }
 
@@ -405,7 +408,7 @@ def apply_idiom(ed, text, base, body_rel, loops, rest, item_id, log, rel, src):
     if rule not in IDIOMS:
         raise GenError('unknown idiom %s' % rule)
     inst = {'rule': rule, 'item': item_id, 'file': rel}
-    if rule in ('I1', 'I4', 'I6'):
+    if rule in ('I1', 'I4', 'I6', 'I17'):
         mm = re.match(r'loop\s+(\d+)$', arg)
         if not mm:
             raise GenError('idiom %s needs `loop k`' % rule)
@@ -421,6 +424,14 @@ def apply_idiom(ed, text, base, body_rel, loops, rest, item_id, log, rel, src):
             e_ = rsx.norm_ws(e_)
             ed.replace(a, b, 'for %s in 0..%s.len() ' % (i_, e_), 'I1')
             ed.replace(b + 1, b + 1, ' let %s = &%s[%s];' % (x_, e_, i_), 'I1')
+        elif rule == 'I17':
+            h = re.match(r'for \((\w+), (\w+)\) in &(\w+)\s*$', hdr, re.S)
+            if not h:
+                raise GenError('%s: loop header does not have the I17 shape: %s' % (item_id, hdr))
+            k_, v_, m_ = h.groups()
+            ed.replace(a, a, 'let es__%s = idiom_map_entries(&%s); ' % (m_, m_), 'I17')
+            ed.replace(a, b, 'for i__%s in 0..es__%s.len() ' % (m_, m_), 'I17')
+            ed.replace(b + 1, b + 1, ' let (%s, %s) = (&es__%s[i__%s].0, es__%s[i__%s].1);' % (k_, v_, m_, m_, m_, m_), 'I17')
         elif rule == 'I6':
             h = re.match(r'for (\w+) in &(.+?)\s*$', hdr, re.S)
             if not h:
@@ -443,8 +454,25 @@ def apply_idiom(ed, text, base, body_rel, loops, rest, item_id, log, rel, src):
         if not parts:
             raise GenError('idiom %s needs an anchor' % rule)
         anchor = parts[0]
-        p = _nth(text[body_rel:], anchor, n, item_id) + body_rel
-        a, b = p, p + len(anchor)
+        if anchor in text[body_rel:]:
+            p = _nth(text[body_rel:], anchor, n, item_id) + body_rel
+            a, b = p, p + len(anchor)
+        else:
+            # the anchor is given on one line; in the source it may span several lines: whitespace-insensitive match
+            rx = re.compile(r'\s*'.join(re.escape(tok) for tok in re.findall(r'\w+|[^\w\s]', anchor)))
+            ms = list(rx.finditer(text, body_rel))
+            if not ms or (n is None and len(ms) != 1) or (n is not None and n > len(ms)):
+                raise GenError('anchor not found: %s `%s`' % (item_id, anchor))
+            mm = ms[(n or 1) - 1]
+            a, b = mm.start(), mm.end()
+            anchor = text[a:b]
+        if rule == 'I19' and anchor.endswith('retain('):
+            # the anchor names the call; the span is the whole balanced call plus `;` (bounds A, B stay under proof)
+            e = _balanced_arg(text, b - 1)
+            b = e + 1
+            if text[b:b + 1] == ';':
+                b += 1
+            anchor = text[a:b]
         inst['line'] = src.line_of(base + a)
         inst['original'] = anchor
         flat = rsx.norm_ws(anchor)
@@ -493,6 +521,16 @@ def apply_idiom(ed, text, base, body_rel, loops, rest, item_id, log, rel, src):
             if not h:
                 raise GenError('I15 shape mismatch: %s' % flat)
             new = 'idiom_entry_or_insert(&mut %s, %s, %s)' % h.groups()
+        elif rule == 'I18':
+            h = re.match(r'^\*([\w\.]+)\.keys\(\)\.max\(\)\.unwrap\(\)$', flat)
+            if not h:
+                raise GenError('I18 shape mismatch: %s' % flat)
+            new = 'idiom_max_key(&%s)' % h.group(1)
+        elif rule == 'I19':
+            h = re.match(r'^([\w\.]+)\.retain\(\|(\w+), _\| \{ \*(\w+) >= (.+?) && \*(\w+) <= (.+?) \}\);$', flat)
+            if not h or h.group(2) != h.group(3) or h.group(2) != h.group(5):
+                raise GenError('I19 shape mismatch: %s' % flat)
+            new = 'idiom_retain_key_range(&mut %s, %s, %s);' % (h.group(1), h.group(4), h.group(6))
         elif rule == 'I11':
             h = re.match(r'^([\w\.]+)\.to_le_bytes\(\)$', flat)
             if not h:
